@@ -110,6 +110,37 @@ def run(ctx):
             rep.check(src_tok & cre_tok - {"p:1"} != set() or src_tok == cre_tok, "C10.R1", "%s:rename-source-is-temp" % name, "the renamed file is the synced temp file",
                       "rename source is not the file that was written", site=f.loc())
 
+    # ---------------- R8 truncation is physical
+    rep.rule("C10.R8", "A1 a recovery that reports a truncated tail physically removes it: the rewrite/clear runs on every success path of the truncating functions, "
+                       "and the writer's after-error cursor refresh recovers through the truncating (writer) recovery")
+    rw = prog.fn(CW + "rewrite_filesystem_segments_after_truncation")
+    sites = rw.call_sites(r"causal_wal::rewrite_segment_records$")
+    succ = [b for b in success_blocks(rw) if b not in sites]
+    rep.check(len(sites) >= 1, "C10.R8", "truncate:rewrite-called", "segments are rewritten", "rewrite_filesystem_segments_after_truncation no longer rewrites the segments", site=rw.loc())
+    if sites:
+        w = rw.path([0], succ, avoid_blocks=sites) if succ else None
+        rep.check(w is None, "C10.R8", "truncate:no-success-without-rewrite", "every success return passes the segment rewrite",
+                  "rewrite_filesystem_segments_after_truncation can return Ok without rewriting (%s): a torn partial record (never decoded, so never counted) stays at the end of "
+                  "the segment and the next acknowledged transaction is appended behind it" % rw.describe_path(w), site=rw.loc())
+    rf = prog.fn(CW + "recover_filesystem_store")
+    rws = rf.call_sites(r"causal_wal::rewrite_filesystem_segments_after_truncation$")
+    cls = rf.call_sites(r"causal_wal::clear_filesystem_segments$")
+    rep.check(len(rws) == 1 and len(cls) == 1, "C10.R8", "recover:truncation-sites", "TruncatedAfter → rewrite, TruncatedAll → clear", "rewrite=%d clear=%d" % (len(rws), len(cls)), site=rf.loc())
+    for b in rws + cls:
+        okk, why = result_inspected(rf, b)
+        rep.check(okk, "C10.R8", "recover:truncation-result-propagated:%s" % (rf.callee_of(rf.blocks[b]["t"]) or "").rsplit("::", 1)[-1], why, "truncation error dropped", site=rf.loc())
+    # the posture switch that reaches them is on (mode, tail_posture): both truncation arms exist under Writable
+    rc = prog.fn(TH + "TrustedRuntimeWal::refresh_cursor_from_store_for_writer")
+    fr = rc.call_sites(r"TrustedRuntimeWalCursor::from_recovery$")
+    rep.check(len(fr) == 1, "C10.R8", "writer-refresh:anchor", "cursor rebuilt from a recovery report", "from_recovery sites: %d" % len(fr), site=rc.loc())
+    for b in fr:
+        no = near_origins(rc, rc.blocks[b]["t"]["args"][0])
+        calls = {x[1].rsplit("::", 1)[-1] for x in no if x[0] == "call"}
+        rep.check("recover_for_writer" in calls and "recover_read_only" not in calls, "C10.R8", "writer-refresh:truncating-recovery",
+                  "the writer's cursor is rebuilt from recover_for_writer (uncommitted tail removed first)",
+                  "after a store error the writer's cursor is rebuilt from %s: frames of the failed transaction stay in the segment and the retry appends duplicate LSNs behind them" % sorted(calls),
+                  site=rc.loc())
+
     # ---------------- R2
     exceptions = {
         ("warp_core::trusted_runtime_host::TrustedRuntimeWal::try_update_evidence_catalog_after_commit", "*"): "best-effort evidence catalog update (posture flagged NeedsRebuild)",
